@@ -46,7 +46,7 @@ DATETIMES_EXT = [_dt(DATES_EXT[0]), _dt(DATES_EXT[1], 23, 59, 59, 999999)]
 
 KINDS_BASIC = ["bool", "int", "float", "str", "date", "datetime"]
 KINDS_KEY = ["bool", "int", "float", "str", "lstr", "ustr", "date", "datetime", "obool"]
-NA_CAPABLE = {"longdouble", "tstr", "onum", "omix", "float", "str", "lstr", "ustr", "date", "datetime", "obool", "obj", "ostr", "timedelta", "float32", "oint"}
+NA_CAPABLE = {"datetime_s", "datetime_ms", "datetime_ns", "longdouble", "tstr", "onum", "omix", "float", "str", "lstr", "ustr", "date", "datetime", "obool", "obj", "ostr", "timedelta", "float32", "oint"}
 NA_PATTERNS = ["none", "none", "some", "some", "first", "last", "all"]
 
 def pool(rng, kind, hostile=0.25, tags=None):
@@ -103,6 +103,9 @@ def pool(rng, kind, hostile=0.25, tags=None):
             p += DATES_EXT
             if tags is not None: tags.add("date_ext")
         return p
+    if kind in ("datetime_s", "datetime_ms", "datetime_ns"):
+        # the same instants in another unit (whole seconds for "s"); nanoseconds only span 1678-2261
+        return [d.replace(microsecond=0) if kind == "datetime_s" else (d.replace(microsecond=(d.microsecond // 1000) * 1000) if kind == "datetime_ms" else d) for d in DATETIMES]
     if kind == "datetime":
         p = list(DATETIMES)
         if h:
